@@ -72,4 +72,6 @@ func NewMember(seed uint64, label string, idx int) *Member {
 
 func cmtsecpPub(b []byte) cmtsecp.PubKey { return cmtsecp.PubKey(append([]byte(nil), b...)) }
 
-func secpPriv(p cmtsecp.PrivKey) *secp256k1.PrivKey { return &secp256k1.PrivKey{Key: append([]byte(nil), p...)} }
+func secpPriv(p cmtsecp.PrivKey) *secp256k1.PrivKey {
+	return &secp256k1.PrivKey{Key: append([]byte(nil), p...)}
+}
